@@ -55,7 +55,7 @@ class C03(HistoryProperty):
     N_XPROC = {"quick": 120, "thorough": 3000}
 
     def gen_case(self, rng, tier):
-        cfg = gen.swarm_cfg(rng, on=("dsclass", "namespace"))
+        cfg = gen.swarm_cfg(rng, on=("dsclass", "namespace", "fapp"))
         cfg["namespace_keys"] = True
         cfg["user_evaluatables"] = rng.random() < 0.4  # user-defined Evaluatable subclasses in the place of plain Options
         cfg["labrea_keys"] = rng.random() < 0.4  # dictionaries that carry the reserved LABREA section (logging / effects switches)
